@@ -178,3 +178,44 @@ Definition reach_frame_ok (c : codec) (f : N) (nh : option (list N)) (ws : list 
     read_prefixes (length (rv_nlri v)) (addpath_for c f) (maxbits_of f) (rv_nlri v)
       = Some (map (canon_prefix (addpath_for c f)) chunk).
 
+
+(* What the peer must be able to read from one frame of an Unreach whose share of the
+   entries is [chunk]: the family and exactly the withdrawn prefixes of the chunk. *)
+Definition unreach_frame_ok (c : codec) (f : N) (fr : list N) (chunk : list pnlri) : Prop :=
+  exists wd,
+    read_unreach (max_len c) (legacy c f) fr = Some (f, wd) /\
+    read_prefixes (length wd) (addpath_for c f) (maxbits_of f) wd
+      = Some (map (canon_prefix (addpath_for c f)) chunk).
+
+(* The same for NLRI of ANY family (labeled, VPN, or the families whose NLRI enter the model as
+   their wire bytes): the NLRI field of the frame is exactly the concatenation of the
+   encodings of the entries of its chunk. *)
+Definition reach_frame_bytes (p : profile) (c : codec) (f : N) (nh : option (list N)) (ws : list attr)
+           (nonempty : Prop) (fr : list N) (chunk : list pnlri) : Prop :=
+  exists v,
+    read_reach (max_len c) (legacy c f) fr = Some v /\
+    rv_family v = f /\ rv_attrs v = map attr_tlv ws /\
+    (forall b, nonempty -> nh = Some b -> nh_representable c f b -> rv_nexthop v = expected_nh c f b) /\
+    exists bs, Forall2 (fun e b => enc_pnlri p (addpath_for c f) false e = Ok b) chunk bs /\
+               rv_nlri v = concat bs.
+
+Definition unreach_frame_bytes (p : profile) (c : codec) (f : N) (fr : list N) (chunk : list pnlri) : Prop :=
+  exists wd,
+    read_unreach (max_len c) (legacy c f) fr = Some (f, wd) /\
+    exists bs, Forall2 (fun e b => enc_pnlri p (addpath_for c f) true e = Ok b) chunk bs /\ wd = concat bs.
+
+(* families inside a capability are well-formed family values *)
+Definition cap_wf (c : cap) : Prop :=
+  match c with
+  | CExtNexthop l => Forall (fun x => fam_ok (fst x)) l
+  | _ => True
+  end.
+
+(* the OPEN the peer must be able to read: version 4, the two-octet AS field (AS_TRANS when the
+   AS number needs four octets, RFC 6793 4.1), hold time, identifier, and the capabilities in
+   order as <code, value> *)
+Definition open_ok (max : N) (asn hold rid : N) (caps : list cap) (fr : list N) : Prop :=
+  exists body v,
+    read_frame max fr = Some (1, body) /\ read_open body = Some v /\
+    o_version v = 4 /\ o_as v = (if 65535 <? asn then 23456 else asn) /\ o_hold v = hold /\ o_id v = rid /\
+    o_caps v = map cap_tlv caps.
